@@ -110,7 +110,7 @@ def run(ctx: RunCtx) -> None:
     horizon = STEPS_REQ * total_req + (STEPS_DELETE if with_delete else 0) + (STEPS_TICK * 3 if with_reaper else 0) + (
         STEPS_OPER if operator else 0)
     budget = 2 + ch.choose(3, "preempt.max")
-    sched = Scheduler(ch, ctx.log, trace_files={S.STICKY_FILE}, preempt_budget=budget, horizon=horizon, time_leap=True,
+    sched = Scheduler(ch, ctx.log, trace_files={S.STICKY_FILE}, preempt_budget=budget, horizon=horizon, time_leap=True, sync_preempts=2, sync_odds=8,
                       wall_limit=60.0)
     simtime = SimTime(sched)
     det = s2.DetRandom(ch.subrng("rnd"))
@@ -193,12 +193,17 @@ def run(ctx: RunCtx) -> None:
             def root() -> None:
                 if with_reaper:
                     sched.spawn(sticky_mod._ReaperThread.run, reaper, name="reaper", daemon=True)
-                for k in range(nthreads):
-                    sched.spawn(requester, k, name=f"req{k}")
+                ts = [sched.spawn(requester, k, name=f"req{k}") for k in range(nthreads)]
                 if with_delete:
-                    sched.spawn(deleter, name="delete")
+                    ts.append(sched.spawn(deleter, name="delete"))
                 if operator:
-                    sched.spawn(operate, name="operator")
+                    ts.append(sched.spawn(operate, name="operator"))
+                for t in ts:
+                    while t.state != "done":
+                        sched.block(("join", t.sid), 1.0, "join")
+                # the reaper is a daemon: let it finish whatever sweep it is in the middle of (an entry it has already taken
+                # out of the registry is closed a few lines later) before the end-of-run oracles look at the registry
+                sched.block(("quiesce",), 0.0, "quiesce")
 
             box["registry"] = registry
             sched.run(root)
